@@ -459,7 +459,8 @@ def loader_case(rng, name, kind, tmp):
 def run(ctx):
     tmp = tempfile.mkdtemp(prefix="verif-C13-")
     try:
-        for fl in ("hooks", "asan"):
+        flavours = os.environ.get("VERIF_C13_FLAVOURS", "hooks,asan").split(",")     # dev knob: "hooks" skips the ASan build
+        for fl in flavours:
             build.harness("dag.cpp", fl)
         n_api = ctx.size(1200, 40000)
         n_big = ctx.size(60, 2000)
@@ -508,7 +509,10 @@ def run(ctx):
             jobs.append(("asan", "cm02", js[::4][b:b + 60]))
         for sc in dx[::30]:
             jobs.append(("asan", "cm02", [sc]))
-        ctx.pmap(lambda j: run_group(ctx, tmp, j[0], j[1], j[2]), jobs)
+        if "asan" in flavours:
+            ctx.pmap(lambda j: run_group(ctx, tmp, j[0], j[1], j[2]), jobs)
+        else:
+            ctx.assume("ASan+UBSan flavour skipped (VERIF_C13_FLAVOURS)")
     finally:
         shutil.rmtree(tmp, ignore_errors=True)
 
